@@ -68,6 +68,9 @@ def process(input_name, enable_debug_db, arch, model_reader_options, compiler_op
     # Start from empty tables: main() may be called more than once in a process
     DebugDatabase.clean_db()
 
+    if not os.path.isfile(input_name):
+        raise InputFileError(input_name, "No such file")
+
     nng, network_type = model_reader.read_model(input_name, model_reader_options)
 
     if not nng:
